@@ -123,8 +123,35 @@ Definition check_sat (c : sat_case) : list string :=
 
 (* ---- raw resolve cases (malformed stream) ---------------------------------- *)
 Record res_case := { r_str : string; r_name : string; r_ver : string; r_dep : Z; r_pin : string }.
+(* validator, independent of packageNameRegex: a raw string that IS  name op version [@pin]  with clean parts (a non-empty
+   name without @ = > < ~, a non-empty operator run, a non-empty version without @, an optional alphanumeric pin; so: names
+   aside, their version is rescaled) must come back as exactly those parts (c03_constraint_split) *)
+Definition is_alnum_b (c : N) : bool := (((48 <=? c) && (c <=? 57)) || ((65 <=? c) && (c <=? 90)) || ((97 <=? c) && (c <=? 122)))%N.
+Definition clean_parts (s : list N) : option (list N * list N * list N * list N) :=
+  let (name, r1) := span is_namechar s in
+  let (ops, r2) := span is_opchar r1 in
+  let (v, r3) := span not_at r2 in
+  match name, ops, v with
+  | _ :: _, _ :: _, _ :: _ =>
+      match r3 with
+      | [] => Some (name, ops, v, [])
+      | _ :: pin => match pin with
+                    | [] => None
+                    | _ => if forallb is_alnum_b pin then Some (name, ops, v, pin) else None
+                    end
+      end
+  | _, _, _ => None
+  end.
+
 Definition check_res (c : res_case) : list string :=
   let m := resolve_constraint (r_str c) in
+  (match strip_prefix (bytes_of_string "so:") (bytes_of_string (r_str c)), clean_parts (bytes_of_string (r_str c)) with
+   | None, Some (name, ops, v, pin) =>
+       tag_if (negb (String.eqb (r_name c) (string_of_bytes name) && String.eqb (r_ver c) (string_of_bytes v) &&
+                     String.eqb (r_pin c) (string_of_bytes pin) && (r_dep c =? dep_of_matcher (string_of_bytes ops))))
+         "viol:constraint-split-loses-parts"
+   | _, _ => []
+   end) ++
   tag_if (negb (String.eqb (c_name m) (r_name c) && String.eqb (c_version m) (r_ver c) &&
                 (c_dep m =? r_dep c) && String.eqb (c_pin m) (r_pin c))) "mismatch:resolve-constraint".
 
@@ -134,8 +161,16 @@ Definition check_res (c : res_case) : list string :=
 Record flt_case := { f_name : string; f_op : string; f_cver : string; f_ver : string; f_provs : list string;
                      f_obs : bool; f_clean : bool }.
 
+(* the version a provide carries: read off the string itself when it has clean parts (independent of packageNameRegex),
+   through the model otherwise (so: names, odd shapes) *)
+Definition prov_version (prov : string) : string :=
+  match strip_prefix (bytes_of_string "so:") (bytes_of_string prov), clean_parts (bytes_of_string prov) with
+  | None, Some (_, _, v, _) => string_of_bytes v
+  | _, _ => c_version (resolve_constraint prov)
+  end.
+
 Definition spec_prov_ok (op : vop) (r : ver) (prov : string) : bool :=
-  let pv := c_version (resolve_constraint prov) in
+  let pv := prov_version prov in
   if String.eqb pv "" then false
   else match spec_parse pv with
        | Some b => fits_int64 b && spec_sat op b r
@@ -149,7 +184,7 @@ Definition check_filter (c : flt_case) : list string :=
   (if f_clean c then
      match spec_parse (f_ver c), spec_parse (f_cver c) with
      | Some a, Some r =>
-         if fits_int64 a && fits_int64 r && forallb (fun p => match spec_parse (c_version (resolve_constraint p)) with
+         if fits_int64 a && fits_int64 r && forallb (fun p => match spec_parse (prov_version p) with
                                                               | Some b => fits_int64 b | None => true end) (f_provs c) then
            let want := spec_sat (vop_of_string (f_op c)) a r || existsb (spec_prov_ok (vop_of_string (f_op c)) r) (f_provs c) in
            tag_if (negb (Bool.eqb (f_obs c) want))
@@ -220,7 +255,7 @@ Definition spec_want (op cver : string) (k : fcand) : option bool :=
   if String.eqb op "" then Some true
   else match spec_parse (fc_ver k), spec_parse cver with
        | Some a, Some r =>
-           if fits_int64 a && fits_int64 r && forallb (fun p => match spec_parse (c_version (resolve_constraint p)) with
+           if fits_int64 a && fits_int64 r && forallb (fun p => match spec_parse (prov_version p) with
                                                                 | Some b => fits_int64 b | None => true end) (fc_provs k)
            then Some (spec_sat (vop_of_string op) a r || existsb (spec_prov_ok (vop_of_string op) r) (fc_provs k))
            else None
